@@ -36,7 +36,7 @@ def cvc5_backend(path, goal, ob):
         return
     t0 = time.time()
     text = "(set-logic ALL)\n" + ob.smt2 + "\n"
-    res, why = cvc5_check(text, timeout_s=20)
+    res, why = cvc5_check(text, timeout_s=12)
     ob.seconds += time.time() - t0
     ob.smt2 = None
     if res == "unsat":
@@ -115,6 +115,7 @@ def run_symbolic(h, repo_root):
         a["havoc"] = a["havoc"] or ob.havoc
         if ob.result == "failed" and a["cex"] is None:
             a["cex"] = {"inputs": ob.inputs, "model": ob.model, "path": ob.path_id, "detail": ob.detail}
+            a["detail"] = ob.detail
         if ob.result == "unknown" and not a["detail"]:
             a["detail"] = ob.detail
         if ob.result == "unknown" and ob.inputs is not None and a.get("candidate") is None:
